@@ -1641,4 +1641,36 @@ theorem fetchAndUpdate_has_path (env : Env) (s : St) (now : Nat) (resp : Resp) (
       exact (mem_rank _ e _).mp this
     exact reevaluate_has_path env _ now _ ⟨hu.1.active_mem, hu.1.nodup⟩ ⟨e, he', hev⟩
 
+/-! ## refetch schedule vs. the expiry of every cached path -/
+
+theorem minOpt_le {l : List Nat} {m : Nat} (h : minOpt l = some m) : ∀ x ∈ l, m ≤ x := by
+  induction l generalizing m with
+  | nil => intro x hx; cases hx
+  | cons y ys ih =>
+    intro x hx
+    unfold minOpt at h
+    split at h
+    · next m' hm' =>
+      have hm : m = min y m' := by cases h; rfl
+      rcases List.mem_cons.mp hx with rfl | hx'
+      · omega
+      · have := ih hm' x hx'; omega
+    · next hn =>
+      have hm : m = y := by cases h; rfl
+      rcases List.mem_cons.mp hx with rfl | hx'
+      · omega
+      · cases ys with
+        | nil => cases hx'
+        | cons z zs => exact absurd hn (minOpt_ne_none (by simp))
+
+/-- the schedule after a successful fetch is monotone in the earliest expiry: computed from `ee`, it is no
+    later than `min_expiry_threshold` before any expiry `x ≥ ee`, unless `min_refetch_delay` forbids it -/
+theorem nextAfterOk_le_of_expiry (cfg : Cfg) (now ee x : Nat) (h : ee ≤ x) :
+    nextAfterOk cfg now ee ≤ max (now + cfg.minRefetchDelay) (x * NS - cfg.minExpiryThreshold) := by
+  unfold nextAfterOk
+  have h2 : ee * NS ≤ x * NS := Nat.mul_le_mul_right _ h
+  generalize ee * NS = a at *
+  generalize x * NS = c at *
+  omega
+
 end ScionVerif.PathMgr
